@@ -53,6 +53,11 @@ Fold(decls, i, st) ==
                        ty == IF d.kind = "aliasarr" THEN [k |-> "arr", elem |-> tgt.id, len |-> [k |-> "fixed", n |-> d.n]]
                              ELSE [k |-> "ptr", target |-> IF named THEN [k |-> "ref", name |-> tgt.id.name] ELSE tgt.id]
                    IN Fold(decls, i + 1, AddNames(st, d.names, TyU(ty, i), 1))
+         [] d.kind = "typedecl" ->      \* typedef struct [TAG] { ... } *P;  /  ... A[n];
+              LET named == d.type.name # ""
+                  ty == IF d.ptr THEN [k |-> "ptr", target |-> IF named THEN [k |-> "ref", name |-> d.type.name] ELSE d.type]
+                        ELSE [k |-> "arr", elem |-> d.type, len |-> [k |-> "fixed", n |-> d.n]]
+              IN Fold(decls, i + 1, AddNames(AddNames(st, d.names, TyU(d.type, i), 1), << d.alias >>, TyU(ty, i), 1))
          [] d.kind = "addtype" -> LET r == AddType(st.tab, d.name, IF d.isname THEN Nm(d.target) ELSE Ty(d.target), d.replace) IN
                                   Fold(decls, i + 1, [tab |-> r.tab, ok |-> r.ok])
          [] OTHER -> Fold(decls, i + 1, st)
@@ -69,7 +74,7 @@ GrammarClauses(T) ==
 
 \* A text that did not come from the renderer (definitions found in the repository's tests): its meaning is the grammar's alone.
 \* Names: every user name the object knows must be declared by the text and vice versa.
-DeclNames(decls) == UNION {ToSetP(decls[j].names) : j \in 1..Len(decls)}
+DeclNames(decls) == UNION {ToSetP(decls[j].names) \cup (IF decls[j].kind = "typedecl" THEN {decls[j].alias} ELSE {}) : j \in 1..Len(decls)}
 \* what a grammatical text must satisfy beyond the grammar: no bit-field straddles its unit, no field name twice in one structure
 RECURSIVE NoDupFields(_)
 NoDupFields(t) ==
@@ -85,7 +90,7 @@ Terminable(t) ==
     [] t.k = "arr" -> ~(t.len.k = "null" /\ t.elem.k = "arr") /\ Terminable(t.elem)
     [] OTHER -> TRUE
 ValidDecls(decls) ==
-  \A j \in 1..Len(decls) : decls[j].kind = "type" /\ decls[j].type.k \in {"struct", "union"} =>
+  \A j \in 1..Len(decls) : decls[j].kind \in {"type", "typedecl"} /\ decls[j].type.k \in {"struct", "union"} =>
       WellFormed(decls[j].type, [endian |-> "<", align |-> FALSE, ptr |-> 8]) /\ NoDupFields(decls[j].type) /\ Terminable(decls[j].type)
 CorpusClauses(T) ==
   LET g == DG!Parse(T.texts) IN
